@@ -22,6 +22,7 @@ THEOREMS = [
     'AbacusVerif.TwoPass.fill_is_filter',
     'AbacusVerif.TwoPass.thread_count_independent',
     'AbacusVerif.TwoPass.count_fill_agree',
+    'AbacusVerif.TwoPass.blocks_partition',
     'AbacusVerif.TwoPass.applyWrites_perm',
     'AbacusVerif.TwoPass.schedule_independent',
     'AbacusVerif.TwoPass.fastConcat_spec',
